@@ -11,7 +11,7 @@ def loop(breach):
                '__CPROVER_decreases(dims->n - it)' % (lim, breach, breach)}
 def pred(name, breach):
     return dict(file=CK, locator=r'bool\s+%s::operator\s*\(\s*\)\s*\(' % name, cls=name, cls_file=CH, classes=CL + [name], member_types={'data': 'DataArray'},
-                loops=loop(breach))
+                loops=loop(breach), bounded_twin=True)
 UNITS = {k: ND_UNITS[k] for k in ('NDSize_size', 'NDSize_at')}
 UNITS.update({
     'dimTicksMatchData_call': pred('dimTicksMatchData', 'TICKS_BREACH'),
